@@ -503,4 +503,64 @@ Section FixedLibEv.
         [exact HR | reflexivity | reflexivity | exact Hev | exact Happ].
   Qed.
 
+  (* ---------------------------------------------------------------- whole histories *)
+
+  Lemma bool_eq_iff (a b : bool) : (a = true <-> b = true) -> a = b.
+  Proof.
+    destruct a, b; intros [H1 H2]; try reflexivity.
+    - symmetry. apply H1. reflexivity.
+    - apply H2. reflexivity.
+  Qed.
+
+  Lemma lib_stored_in s : lib_stored s = true <-> In (ri r0) (keys (store (db s))).
+  Proof. unfold lib_stored. apply memN_in. Qed.
+
+  Lemma lib_received_in seen : lib_received r0 seen = true <-> exists x, In x seen /\ bid x = ri r0.
+  Proof.
+    unfold lib_received. rewrite existsb_exists. split; intros (x & Hx & E); exists x; (split; [exact Hx|]).
+    - apply N.eqb_eq. exact E.
+    - apply N.eqb_eq. exact E.
+  Qed.
+
+  Lemma dropped_not_lib s S b : Inv s S -> In b U -> dropped s b = true -> bid b <> ri r0.
+  Proof.
+    intros HI Hb Hd E. unfold dropped in Hd. apply andb_true_iff in Hd as [Hd _].
+    destruct (i_lib _ _ _ _ HI) as [Hl _]. rewrite Hl in Hd. pose proof (L_num b Hb E). lia.
+  Qed.
+
+  Lemma lib_stored_step s s' S S' b seen : Inv s S -> In b U -> StepKind s s' S S' b ->
+    lib_stored s = lib_received r0 seen -> lib_stored s' = lib_received r0 (b :: seen).
+  Proof.
+    intros HI Hb Hk Hlr. apply bool_eq_iff. rewrite lib_stored_in, lib_received_in.
+    assert (Hold : In (ri r0) (keys (store (db s))) <-> exists x, In x seen /\ bid x = ri r0).
+    { rewrite <- lib_stored_in, <- lib_received_in, Hlr. tauto. }
+    assert (Hnw : forall s2, keys (store (db s2)) = keys (store (db s)) ++ [bid b] ->
+              (In (ri r0) (keys (store (db s2))) <-> exists x, In x (b :: seen) /\ bid x = ri r0)).
+    { intros s2 ->. rewrite in_app_iff, Hold. cbn [In]. split.
+      - intros [(x & Hx & E)|[E|[]]]; [exists x; auto | exists b; auto].
+      - intros (x & [<-|Hx] & E); [right; left; exact E | left; exists x; auto]. }
+    destruct Hk as [Hc -> _| _ _ Hk' _ _ _ | _ _ Hk' _ _ _]; [|apply Hnw; exact Hk'|apply Hnw; exact Hk'].
+    rewrite Hold. split.
+    - intros (x & Hx & E). exists x. split; [right; exact Hx | exact E].
+    - intros (x & [<-|Hx] & E); [|exists x; auto].
+      destruct Hc as [Hc|Hc]; [exfalso; exact (dropped_not_lib s S _ HI Hb Hc E)|].
+      apply Hold. rewrite <- E. exact Hc.
+  Qed.
+
+  Lemma run_ev : forall h s S seen, Inv s S -> last_lib_seen s = r0 -> (forall b, In b h -> In b U) ->
+    lib_stored s = lib_received r0 seen ->
+    c04_run r0 seen S h (fk_run cfg s h).
+  Proof.
+    induction h as [|b h IH]; intros s S seen HI Hseen Hh Hlr; [exact I|].
+    destruct (step_ev s S b HI Hseen (Hh b (or_introl eq_refl))) as (s' & evs & S' & Hstep & Happ & HI' & Hseen' & Hc04 & Hkind).
+    cbn [fk_run]. rewrite Hstep. cbn [c04_run]. split; [reflexivity|]. exists S'. split.
+    - rewrite <- Hlr. exact Hc04.
+    - apply IH; [exact HI' | exact Hseen' | intros x Hx; apply Hh; right; exact Hx |].
+      exact (lib_stored_step s s' S S' b seen HI (Hh b (or_introl eq_refl)) Hkind Hlr).
+  Qed.
+
+  Theorem fixed_lib_events h : (forall b, In b h -> In b U) ->
+    c04_run r0 [] [] h (fk_run cfg (fs_init (LExcl r0)) h).
+  Proof. intros Hh. apply run_ev; [apply inv_init | reflexivity | exact Hh | reflexivity]. Qed.
+
 End FixedLibEv.
